@@ -968,12 +968,14 @@ class Facts:
                         out.append(iid)
         return out
 
-    def inst_callees(self, inst, bb=None, include_cleanup=False):
+    def inst_callees(self, inst, bb=None, include_cleanup=False, creator=True):
         """resolved callee instance ids of an instance (optionally only at block bb), with dyn
         fan-out; returns list of (bb, kind, callee_id or None, edge)"""
         out = []
         for e in inst.get("edges", []):
             if bb is not None and e["bb"] != bb:
+                continue
+            if e["k"] == "unsize" and not creator:
                 continue
             if e["k"] == "unsize" and e["info"].get("ptr") in ("ref", "raw") and e["info"].get("vtable"):
                 # creator attribution: a *borrowed* trait object (`&mut x as &mut dyn Tr`) cannot
@@ -1052,11 +1054,12 @@ class Facts:
         self._callees = callees
         return self._eff
 
-    def call_effects(self, inst, bb):
-        """effects of the call/drop at block bb of instance inst"""
+    def call_effects(self, inst, bb, creator=True):
+        """effects of the call/drop at block bb of instance inst (creator=False: without what may later be done through a trait object
+        that is merely created in this block)"""
         eff = self.effects()
         out = set()
-        for _, kind, to, e in self.inst_callees(inst, bb):
+        for _, kind, to, e in self.inst_callees(inst, bb, creator=creator):
             if to is None and kind == "virtual" and e.get("method") == "drop_in_place" and "std::any::Any" in e.get("dyn", ""):
                 out.add("DROP-ANY")
             elif to is None:
@@ -1066,7 +1069,7 @@ class Facts:
                 out |= eff[to]
         return out
 
-    def effects_at(self, f, bb, inst=None):
+    def effects_at(self, f, bb, inst=None, creator=True):
         """effects of the call/drop terminating block bb of f.  Works for inlined bodies (the block remembers the instance
         and the original block it was copied from) and for plain bodies (inst = the instance to use)."""
         b = f.blocks[bb]
@@ -1074,12 +1077,12 @@ class Facts:
             return set()
         iid = b.get("inst")
         if iid is not None:
-            return self.call_effects(self.instances[iid], b["obb"])
+            return self.call_effects(self.instances[iid], b["obb"], creator=creator)
         if getattr(f, "is_inlined", False) and inst is None:
             inst = getattr(f, "root_inst", None)
         if inst is None:
             raise CheckerError("effects_at: no instance for %s" % f.id)
-        return self.call_effects(inst, b.get("obb", bb))
+        return self.call_effects(inst, b.get("obb", bb), creator=creator)
 
     def effect_witness(self, start_id, tag, limit=12):
         """a call chain (list of instance names) from instance start_id to a leaf carrying `tag`"""
